@@ -52,8 +52,10 @@ def _mk(level, specs, unit):
     return Quantity(v, unit) if unit else Quantity(v)
 
 
-def _plain(specs):
+def _plain(specs, num="py"):
     vals = [_f(s["v"]) for s in specs]
+    if num == "np":
+        return np.float64(vals[0]) if len(vals) == 1 else np.array(vals, dtype=float)
     return vals[0] if len(vals) == 1 else vals
 
 
@@ -61,7 +63,7 @@ def run_case(case):
     recs = case["recs"]
     r0 = recs[0]
     level = case["level"]
-    tags = [r0["kind"], r0["op"], "side:" + r0["side"], "level:" + level] + sorted(set(t for r in recs for t in r["tags"]))
+    tags = [r0["kind"], r0["op"], "side:" + r0["side"], "num:" + r0.get("num", "-"), "level:" + level] + sorted(set(t for r in recs for t in r["tags"]))
     if case.get("viaquery"):
         tags.append("after_value_query")
     if len(recs) > 1:
@@ -76,11 +78,11 @@ def run_case(case):
             warnings.simplefilter("ignore")
             if kind == "op":
                 una, unb = ("m", "m") if op in ("add", "sub") else ("m", "s")
-                a = _plain([r["a"] for r in recs]) if side == "nm" else _mk(level, [r["a"] for r in recs], una)
+                a = _plain([r["a"] for r in recs], r0.get("num", "py")) if side == "nm" else _mk(level, [r["a"] for r in recs], una)
                 if side == "self":
                     b = a                                   # the very same object on both sides
                 elif op in ("add", "sub", "mul", "div"):
-                    b = _plain([r["b"] for r in recs]) if side == "mn" else _mk(level, [r["b"] for r in recs], unb)
+                    b = _plain([r["b"] for r in recs], r0.get("num", "py")) if side == "mn" else _mk(level, [r["b"] for r in recs], unb)
                 if (side in ("nm", "mn")) and level == "Q" and op in ("add", "sub"):
                     # a plain number can only be added to a dimensionless quantity
                     if side == "nm":
@@ -187,7 +189,7 @@ def _safe_run(case):
 
 
 def shape_key(r):
-    return json.dumps([r["kind"], r["op"], r["side"], r["p"], r["ua"], r["ub"], r["a"]["e"] == [], r["b"]["e"] == [],
+    return json.dumps([r["kind"], r["op"], r["side"], r.get("num", "-"), r["p"], r["ua"], r["ub"], r["a"]["e"] == [], r["b"]["e"] == [],
                        [(o["lhs"], o["rel"]) for o in r["obs"]], r["cls"]])
 
 
@@ -211,7 +213,7 @@ def cases_from_records(recs, arrays=True):
         for g in groups.values():
             if len(g) >= 2:
                 g = sorted(g, key=lambda r: json.dumps([r["a"], r["b"]]))
-                if g[0]["kind"] == "op":
+                if g[0]["kind"] == "op" and not (g[0].get("num") == "np" and g[0]["side"] == "nm"):
                     cases.append(dict(recs=g, level="M"))
                 cases.append(dict(recs=g, level="Q"))
                 if g[0]["kind"] == "conv":
@@ -241,11 +243,11 @@ def table_scenarios(rnd, n):
         used |= {ua, ub}
         r = rnd.random()
         if r < 0.3:
-            scen.append(dict(kind="conv", op="to", side="q", a=mag(), b={"v": [1, 1], "e": []}, p=[1, 1], ua=ua, ub=ub))
+            scen.append(dict(num="-", kind="conv", op="to", side="q", a=mag(), b={"v": [1, 1], "e": []}, p=[1, 1], ua=ua, ub=ub))
         elif r < 0.4:
-            scen.append(dict(kind="query", op="value", side="q", a=mag(), b={"v": [1, 1], "e": []}, p=[1, 1], ua=ua, ub=ub))
+            scen.append(dict(num="-", kind="query", op="value", side="q", a=mag(), b={"v": [1, 1], "e": []}, p=[1, 1], ua=ua, ub=ub))
         elif r < 0.5:
-            scen.append(dict(kind="qcons", op="ctor", side="q", a=mag(), b={"v": [1, 1], "e": []}, p=[1, 1], ua=ua, ub=ub))
+            scen.append(dict(num="-", kind="qcons", op="ctor", side="q", a=mag(), b={"v": [1, 1], "e": []}, p=[1, 1], ua=ua, ub=ub))
         elif r < 0.7:
             # small rationals: TLC computes the first-order bound of the quotient exactly (32-bit integers)
             def small(sign=True):
@@ -253,9 +255,9 @@ def table_scenarios(rnd, n):
                 e = [rnd.randint(0, 5), rnd.choice([1, 2, 4, 8])] if rnd.random() < 0.8 else []
                 return {"v": v, "e": e}
             a_, b = small(), small()
-            scen.append(dict(kind="qdiv", op="div", side="qq", a=a_, b=b, p=[1, 1], ua=ua, ub=ub))
+            scen.append(dict(num="-", kind="qdiv", op="div", side="qq", a=a_, b=b, p=[1, 1], ua=ua, ub=ub))
         else:
-            scen.append(dict(kind="qsum", op=rnd.choice(["add", "sub"]), side="qq", a=mag(), b=mag(), p=[1, 1], ua=ua, ub=ub))
+            scen.append(dict(num="-", kind="qsum", op=rnd.choice(["add", "sub"]), side="qq", a=mag(), b=mag(), p=[1, 1], ua=ua, ub=ub))
     return {"units": {u: {"dim": list(dimof[u]), "fac": []} for u in sorted(used)}, "scenarios": scen}
 
 
